@@ -56,7 +56,14 @@ def good(key, val):
 
 def judge(ctx, binary, cases):
     lines = [case_line(c) for c in cases]
-    impl = ctx.run_impl_cases(binary, lines)
+    # OpenMP legs: a case may ask for a thread count (the embedding loop must not depend on it)
+    impl = [None] * len(cases)
+    for th in sorted(set(c.get("threads", 0) for c in cases)):
+        idx = [i for i, c in enumerate(cases) if c.get("threads", 0) == th]
+        env = {"OMP_NUM_THREADS": str(th)} if th else None
+        out = ctx.run_impl_cases(binary, [lines[i] for i in idx], env=env)
+        for i, o in zip(idx, out):
+            impl[i] = o
     jl, where = [], []
     verdicts = [None] * len(cases)
     for n, (c, line, io) in enumerate(zip(cases, lines, impl)):
@@ -167,10 +174,12 @@ def account(ctx, c, v):
     ctx.stat("gen:" + c["label"])
     ctx.stat("topic:" + c["topic"])
     ctx.stat("solver:" + c["solver"])
-    ctx.stat("N<=8" if c["N"] <= 8 else "N<=32" if c["N"] <= 32 else "N<=64")
+    ctx.stat("N<=8" if c["N"] <= 8 else "N<=32" if c["N"] <= 32 else "N<=64" if c["N"] <= 64 else "N>=1024")
     ctx.stat("D=1" if c["D"] == 1 else "D<=4" if c["D"] <= 4 else "D<=12" if c["D"] <= 12 else "D<=30")
     ctx.stat("d=D" if c["d"] == c["D"] else "d<D")
     ctx.stat("mode:exact" if c["exact"] else "mode:approx")
+    if c.get("threads"):
+        ctx.stat("omp_threads:%d" % c["threads"])
     if v.get("cmp"):
         for part in v["cmp"].split(","):
             k, n = part.split(":")
@@ -233,6 +242,16 @@ def gen_cases(ctx, quick):
         add("agree", "agree", "dense", rows, N, D, r.range(1, top), False, D)
         if D <= N - 1:
             add("agree", "agree", "rand", rows, N, D, D, False, D)
+    # 5. many samples, few features, 8 and 1 OpenMP threads: every row of the embedding must be Pᵀ(x_i − mean) whatever the
+    #    schedule (the per-sample loops of routines/pca.hpp); small D keeps the exact judge cheap
+    for rnd in range(3 if quick else 12):
+        N = r.choice([1024, 2048, 3000] if quick else [1024, 4096, 10000, 20000])
+        D = r.range(2, 3)
+        rows = [[r.range(-50, 50) for _ in range(D)] for _ in range(N)]
+        d = r.range(1, D)
+        for th in (8, 1):
+            add("many-samples-omp", "pca", "dense", rows, N, D, d, sp.is_pow2(N), None)
+            cases[-1]["threads"] = th
     return cases
 
 
@@ -271,7 +290,8 @@ def correspond(ctx):
     ctx.cov["rule"] = ("compute_mean / compute_covariance_matrix called directly and PCA through the public API (hook matrix, "
                        "solver output, returned projection object, embedding) on integer (N = 2^m, exact mode), correlated "
                        "low-rank/full-rank and dyadic feature data, N <= %d, D <= %d, d in {1, rank, min(N-1,D), random}, "
-                       "dense solver everywhere and the randomized solver on exact-rank data (rank <= d); plus PCA vs "
+                       "dense solver everywhere and the randomized solver on exact-rank data (rank <= d); N up to 3000 (thorough "
+                       "20000) samples with OMP_NUM_THREADS = 8 and 1 for the per-sample loops; plus PCA vs "
                        "linear-kernel KPCA vs Euclidean MDS Gram agreement; every trace judged in exact rationals by "
                        "model_c06 against the TRUE sample covariance computed from the raw data; non-trivial = N >= 3 and "
                        "D >= 2; distinct by case text" % (32 if quick else 64, 12 if quick else 30))
